@@ -73,7 +73,7 @@ class ResultInterp(Interp):
             for m in self.root.metrics:
                 if m.attrs.get("_name_") == attr:
                     return m
-        return Sym(f"{cls.name}.{attr}")
+        return super().class_member(cls, attr, node)
 
     def iterate_class(self, cls, node):
         if cls.name == "Metric":
@@ -106,14 +106,88 @@ class ResultInterp(Interp):
         if name.startswith("kernel:"):
             r.kernel_calls.append((name, list(args), dict(kwargs), node))
             return Tagged(name, args, kwargs)
-        if name in ("numpy.average", "numpy.mean", "numpy.std", "numpy.sum", "numpy.min", "numpy.max", "numpy.amin", "numpy.amax", "numpy.nanmean", "numpy.nanstd", "numpy.median", "numpy.var", "numpy.sqrt", "numpy.nansum"):
+        if name in REDUCER_FUNCS or name in ("max", "min", "sum", "len", "math.sqrt", "math.fsum", "statistics.pstdev", "statistics.stdev", "statistics.mean", "statistics.fmean"):
             a = [tuple(x) if isinstance(x, list) else x for x in args]
-            return Tagged(name, a, kwargs)
+            if name in ("numpy.asarray", "numpy.array", "numpy.float64", "float") and a:
+                return a[0]
+            return Tagged(name, a, {k: v for k, v in kwargs.items() if k != "dtype"})
         r.ext_calls.append((name, node))
         return Unknown(f"{name}(...)")
 
     def compare_hook(self, op, l, r, node):
         return Unknown(f"cmp {norm(node) if isinstance(node, ast.AST) else ''}")
+
+    def binop_hook(self, op, l, r, node):
+        if isinstance(l, Tagged) or isinstance(r, Tagged):
+            return Tagged("binop:" + type(op).__name__, [l, r])
+        return super().binop_hook(op, l, r, node)
+
+
+REDUCER_FUNCS = {
+    "numpy.average", "numpy.mean", "numpy.std", "numpy.sum", "numpy.min", "numpy.max", "numpy.amin", "numpy.amax", "numpy.nanmean",
+    "numpy.nanstd", "numpy.median", "numpy.var", "numpy.sqrt", "numpy.nansum", "numpy.square", "numpy.power", "numpy.asarray",
+    "numpy.array", "numpy.float64", "numpy.abs", "numpy.subtract", "numpy.nanmin", "numpy.nanmax",
+}
+
+
+def _is(t, *names):
+    return isinstance(t, Tagged) and t.name in names
+
+
+def _mean_of(t, vals):
+    return _is(t, "numpy.mean", "numpy.average", "statistics.mean", "statistics.fmean") and t.args[:1] == (vals,) and not t.kwargs
+
+
+def _square_of(t, inner_pred):
+    if _is(t, "numpy.square") and inner_pred(t.args[0]):
+        return True
+    if _is(t, "binop:Pow", "numpy.power") and inner_pred(t.args[0]) and t.args[1] == 2:
+        return True
+    if _is(t, "binop:Mult") and inner_pred(t.args[0]) and inner_pred(t.args[1]):
+        return True
+    return False
+
+
+def reducer_verdict(kind: str, term, vals: tuple):
+    """True: recognised correct reducer of the whole list; False: recognised wrong one;
+    None: not recognised (undecided)."""
+    if kind == "AVG":
+        if _mean_of(term, vals):
+            return True
+        if _is(term, "binop:Div") and _is(term.args[0], "numpy.sum", "sum", "math.fsum") and term.args[0].args[:1] == (vals,) and (term.args[1] == len(vals) or (_is(term.args[1], "len") and term.args[1].args[:1] == (vals,))):
+            return True
+        if _is(term, "numpy.median", "numpy.sum", "numpy.max", "numpy.min", "numpy.std", "numpy.nanmean"):
+            return False
+        return None
+    if kind == "STD":
+        if _is(term, "numpy.std") and term.args[:1] == (vals,):
+            dd = term.kwargs.get("ddof", 0)
+            rest = {k: v for k, v in term.kwargs.items() if k != "ddof"}
+            if rest:
+                return None
+            return dd == 0
+        if _is(term, "statistics.pstdev") and term.args[:1] == (vals,):
+            return True
+        if _is(term, "statistics.stdev", "numpy.nanstd", "numpy.var"):
+            return False
+        if _is(term, "numpy.sqrt", "math.sqrt"):
+            inner = term.args[0]
+            if _is(inner, "numpy.var") and inner.args[:1] == (vals,) and inner.kwargs.get("ddof", 0) == 0:
+                return True
+            # E[x^2] - E[x]^2 : catastrophic cancellation (negative radicand / nan for tied values)
+            if _is(inner, "binop:Sub"):
+                a, b = inner.args
+                is_vals = lambda x: x == vals
+                if _is(a, "numpy.mean", "numpy.average") and _square_of(a.args[0], is_vals) and _square_of(b, lambda x: _mean_of(x, vals)):
+                    return False
+        return None
+    simple = {"SUM": ("numpy.sum", "sum", "math.fsum"), "MIN": ("numpy.min", "numpy.amin", "min"), "MAX": ("numpy.max", "numpy.amax", "max")}[kind]
+    others = {"numpy.sum", "numpy.min", "numpy.amin", "numpy.max", "numpy.amax", "numpy.mean", "numpy.average", "min", "max", "sum"} - set(simple)
+    if _is(term, *simple) and term.args[:1] == (vals,) and not term.kwargs:
+        return True
+    if _is(term, *others):
+        return False
+    return None
 
 
 class _StrMethod:
